@@ -33,6 +33,7 @@ type mwCase struct {
 	PreTag      *string           `json:"pre_tag"`
 	T0          int64             `json:"t0"`
 	MatchMethod bool              `json:"match_method"`
+	LockTimeout bool              `json:"lock_timeout"` // the caller fixed the rpc timeout (as client.WithRPCTimeout does)
 }
 
 type mwEffect struct {
@@ -68,7 +69,7 @@ func faultErr(mode string) error {
 	return fmt.Errorf("[XDS] manager, fetch failed")
 }
 
-func newRemoteRI(c routeCall, pre *string, t0 int64) rpcinfo.RPCInfo {
+func newRemoteRI(c routeCall, pre *string, t0 int64, lockTimeout ...bool) rpcinfo.RPCInfo {
 	tags := map[string]string{}
 	if pre != nil {
 		tags[xdssuite.RouterClusterKey] = *pre
@@ -79,6 +80,9 @@ func newRemoteRI(c routeCall, pre *string, t0 int64) rpcinfo.RPCInfo {
 		_ = rpcinfo.AsMutableRPCConfig(cfg).SetTransportProtocol(transport.GRPC)
 	}
 	_ = rpcinfo.AsMutableRPCConfig(cfg).SetRPCTimeout(time.Duration(t0))
+	if len(lockTimeout) > 0 && lockTimeout[0] {
+		rpcinfo.AsMutableRPCConfig(cfg).LockConfig(rpcinfo.BitRPCTimeout)
+	}
 	return rpcinfo.NewRPCInfo(nil, to, rpcinfo.NewInvocation(c.Svc, c.Method, c.Pkg), cfg, rpcinfo.NewRPCStats())
 }
 
@@ -182,7 +186,7 @@ func runMW(raw json.RawMessage) (interface{}, error) {
 
 	// A: middleware
 	func() {
-		ri := newRemoteRI(call, c.PreTag, c.T0)
+		ri := newRemoteRI(call, c.PreTag, c.T0, c.LockTimeout)
 		e := &o.MW
 		defer func() {
 			if p := recover(); p != nil {
@@ -203,7 +207,7 @@ func runMW(raw json.RawMessage) (interface{}, error) {
 	}()
 	// B: retry key, observed through which installed policy the container selects
 	func() {
-		ri := newRemoteRI(call, c.PreTag, c.T0)
+		ri := newRemoteRI(call, c.PreTag, c.T0, c.LockTimeout)
 		e := &o.KeyEff
 		defer func() {
 			if p := recover(); p != nil {
